@@ -6,6 +6,7 @@ import (
 	"fmt"
 	"io"
 	"math"
+	"math/big"
 	"os"
 	"os/exec"
 	"strconv"
@@ -518,4 +519,41 @@ func parseGetValueRaw(out string) map[string]string {
 		}
 	}
 	return m
+}
+
+// modelReal parses an SMT real value: 12.5, (- 3.0), (/ 1.0 3.0), (- (/ 1.0 3.0))
+func modelReal(v string) (float64, bool) {
+	n, _ := parseSx(v, 0)
+	if n == nil {
+		return 0, false
+	}
+	var ev func(n *sx) (*big.Rat, bool)
+	ev = func(n *sx) (*big.Rat, bool) {
+		if !n.isL {
+			r, ok := new(big.Rat).SetString(n.atom)
+			return r, ok
+		}
+		if len(n.list) == 2 && n.list[0].atom == "-" {
+			r, ok := ev(n.list[1])
+			if !ok {
+				return nil, false
+			}
+			return r.Neg(r), true
+		}
+		if len(n.list) == 3 && n.list[0].atom == "/" {
+			a, ok1 := ev(n.list[1])
+			b, ok2 := ev(n.list[2])
+			if !ok1 || !ok2 || b.Sign() == 0 {
+				return nil, false
+			}
+			return a.Quo(a, b), true
+		}
+		return nil, false
+	}
+	r, ok := ev(n)
+	if !ok {
+		return 0, false
+	}
+	f, _ := r.Float64()
+	return f, true
 }
